@@ -35,8 +35,21 @@ def build(shape):
         th["alphaqed"] = 0.007496
     xg = cards.make_grid(3, 3, x_min=1e-2)
     tgt = dict(TARGET_DICT) if shape["target"] == "dict" else shape["target"]
-    ob = cards.obs({"F2_total": [dict(x=0.3, Q2=30.0), dict(x=0.1, Q2=5.0), dict(x=0.2, Q2=12.0)]}, xgrid=xg, deg=2,
+    # (an observable without kinematic points is a legitimate card entry: it comes back as an empty list)
+    ob = cards.obs({"F2_total": [dict(x=0.3, Q2=30.0), dict(x=0.1, Q2=5.0), dict(x=0.2, Q2=12.0)], "F3_charm": []}, xgrid=xg, deg=2,
                    prDIS="EM", TargetDIS=tgt, ProjectileDIS="positron")
+    return th, ob
+
+
+def build_scrub(shape):
+    """The same card shape with results that really contain non-finite numbers (LeProHQ at very large eta, the documented case
+    of Runner.replace_nans_with_0), under the bare kind name the scrubbing step looks at."""
+    th, ob = build(shape)
+    th["PTO"] = 2
+    if "PTODIS" in th and th["PTODIS"] is not None:
+        th["PTODIS"] = 2
+    ob["interpolation_xgrid"] = cards.make_grid(4, 3, x_min=1e-9)
+    ob["observables"] = {"F2_total": [dict(x=0.3, Q2=30.0)], "FL": [dict(x=1e-9, Q2=20.0)], "F3_charm": []}
     return th, ob
 
 
@@ -90,7 +103,8 @@ def execute(ob_):
     cards.silence()
     from yadism.input import compatibility
 
-    th, ob = build(shape)
+    th, ob = build_scrub(shape) if ob_.get("scrub") else build(shape)
+    line["scrubbed"] = False
     snap_t, snap_o = copy.deepcopy(th), copy.deepcopy(ob)
     ids0 = nested_ids(ob)
     try:
@@ -106,6 +120,11 @@ def execute(ob_):
             r = yr.Runner(th, ob)
             out = r.get_result()
             out_b = r.get_result()
+            if ob_.get("scrub"):
+                import numpy as np
+                raw = r._output["FL"][0]    # pylint: disable=protected-access
+                line["scrubbed"] = bool(any(not np.all(np.isfinite(v)) for v, _e in raw.orders.values())
+                                        and all(np.all(np.isfinite(v)) for v, _e in out["FL"][0].orders.values()))
             line["caller_unchanged_by_runner"] = (th == snap_t and ob == snap_o)
             line["nested_identity_kept"] = nested_ids(ob) == ids0
             line["echo_cards"] = (out.theory == snap_t and out.observables == snap_o and out_b.theory == snap_t)
@@ -113,7 +132,8 @@ def execute(ob_):
                                  and bool(out["xgrid"]["log"]) == bool(snap_o["interpolation_is_log"])
                                  and int(out["polynomial_degree"]) == snap_o["interpolation_polynomial_degree"]
                                  and list(out["pids"]) == list(br.flavor_basis_pids) and out["projectilePID"] == -11
-                                 and [(p.x, p.Q2) for p in out["F2_total"]] == [(k["x"], k["Q2"]) for k in snap_o["observables"]["F2_total"]])
+                                 and [(p.x, p.Q2) for p in out["F2_total"]] == [(k["x"], k["Q2"]) for k in snap_o["observables"]["F2_total"]]
+                                 and out["F3_charm"] == [] and out_b["F3_charm"] == [])
             r2 = yr.Runner(th, ob)
             out2 = r2.get_result()
             line["second_construction_same"] = (digest_out(out2) == digest_out(out) == digest_out(out_b)
@@ -144,15 +164,22 @@ def run(ctx):
         nrun += o["with_runner"]
     ctx.cov["shapes"] = len(obls)
     ctx.cov["shapes_with_runner"] = nrun
+    # the scrubbing path of get_result (non-finite results under a bare kind name): massive schemes, first suitable shapes
+    sc = [o for o in obls if o["shape"]["fns"] == "FFNS" and o["shape"]["nfff"] == 3 and o["shape"]["ptodis"] in ("absent", "None")
+          and o["shape"]["target"] in ("proton", "dict")][: 2 if q else 6]
+    for o in sc:
+        o2 = dict(o, with_runner=True, scrub=True)
+        o2["oid"] = o["oid"] + "-scrub"
+        obls.append(o2)
     obls.sort(key=lambda o: not o["with_runner"])
     lines = ctx.pmap(execute, obls, chunksize=16)
     for ln in lines:
         ctx.count(1, nontrivial_key=ln["oid"])
     for ln in [l for l in lines if l["runner_checked"]][:2] + lines[-2:]:
         ctx.sample({k: ln[k] for k in ("shape", "proj", "runner_checked", "outcome")})
-    bad = ctx.tlc_validate_sharded("Trace_C20", "Trace.cfg", [{k: v for k, v in ln.items() if k != "note"} for ln in lines])
+    bad = ctx.tlc_validate_sharded("Trace_C20", "Trace.cfg", [{k: v for k, v in ln.items() if k not in ("note", "scrubbed")} for ln in lines])
     by = {ln["oid"]: ln for ln in lines}
-    good = [{k: v for k, v in ln.items() if k != "note"} for ln in lines if ln["oid"] not in bad]
+    good = [{k: v for k, v in ln.items() if k not in ("note", "scrubbed")} for ln in lines if ln["oid"] not in bad]
     ctx.selftest("Trace_C20", "Trace.cfg", good, [
         ("proj", lambda l: dict(l, proj=dict(l["proj"], ptodis="2" if l["proj"]["ptodis"] != "2" else "1"))),
         ("caller", lambda l: dict(l, caller_unchanged_by_update=False)),
@@ -162,11 +189,18 @@ def run(ctx):
         ln = by[oid]
         s = ln["shape"]
         key = f"{s['fns']}{s['nfff']}:{s['ptodis']}:{s['parts']}:{s['sv']}:{s['qed']}:{s['aqed']}:{s['target']}:{clause}"
-        ctx.violation(key, f"card shape {s}: {clause} {ln['note']}", dict(kind="C20", obligation=dict(shape=s, oid=oid, with_runner=True)))
+        if oid.endswith("-scrub"):
+            key = "scrub:" + key
+        ctx.violation(key, f"card shape {s}{' (results with non-finite entries)' if oid.endswith('-scrub') else ''}: {clause} {ln['note']}",
+                      dict(kind="C20", obligation=dict(shape=s, oid=oid, with_runner=True, scrub=oid.endswith("-scrub"))))
+    ctx.cov["scrub_probes"] = len(sc)
+    ctx.cov["scrub_probes_with_nonfinite_raw_results"] = sum(1 for ln in lines if ln.get("scrubbed"))
+    if sc and not ctx.cov["scrub_probes_with_nonfinite_raw_results"]:
+        ctx.assumptions.append("the scrub probes produced no non-finite raw result on this tree: the scrubbing path was not exercised")
 
 
 def replay(ctx, obj):
     ln = execute(obj["obligation"])
-    bad = ctx.tlc_validate("Trace_C20", "Trace.cfg", [{k: v for k, v in ln.items() if k != "note"}])
+    bad = ctx.tlc_validate("Trace_C20", "Trace.cfg", [{k: v for k, v in ln.items() if k not in ("note", "scrubbed")}])
     print({k: v for k, v in ln.items() if k not in ("proj",)}, "\nproj:", ln["proj"], "\nverdict:", bad.get(ln["oid"], "ok"))
     return 1 if bad else 0
